@@ -352,12 +352,21 @@ Section AS.
   Qed.
 
   (* ---- classical identity ---- *)
-  Lemma ident_a f ce b i j ta tb p args w : absat f ce b -> fl_classical L = true ->
-    nth_error b i = Some (NS (Pred 0 [ta; tb]) true w) -> nth_error b j = Some (NS (Pred p args) true w) ->
-    asat f ce (NS (Pred p (map (replace_term ta tb) args)) true w) /\
-    asat f ce (NS (Pred p (map (replace_term tb ta) args)) true w).
+  Lemma ident_args_map {A} (tv : term -> A) ta tb : tv ta = tv tb -> forall a a',
+    ident_args ta tb a a' = true -> map tv a' = map tv a.
   Proof.
-    intros Hs Hc Hi Hj.
+    intros E. induction a as [|x r IH]; intros [|x' r'] H; simpl in H; try discriminate; [reflexivity|].
+    apply andb_true_iff in H. destruct H as [H1 H2]. simpl. rewrite (IH _ H2). f_equal.
+    rewrite !orb_true_iff, !andb_true_iff in H1. destruct H1 as [[H1|[H1 H1']]|[H1 H1']];
+      apply term_eqb_eq in H1; try apply term_eqb_eq in H1'; subst; auto.
+  Qed.
+
+  Lemma ident_a f ce b i j ta tb p args args' w : absat f ce b -> fl_classical L = true ->
+    nth_error b i = Some (NS (Pred 0 [ta; tb]) true w) -> nth_error b j = Some (NS (Pred p args) true w) ->
+    ident_args ta tb args args' = true ->
+    asat f ce (NS (Pred p args') true w).
+  Proof.
+    intros Hs Hc Hi Hj Hia.
     pose proof (Hs _ (nth_error_In _ _ Hi)) as H1. pose proof (Hs _ (nth_error_In _ _ Hj)) as H2.
     simpl in H1, H2. rewrite a_pred in H1, H2.
     destruct (fo_classical _ OK Hc) as [HT [HF _]].
@@ -367,14 +376,9 @@ Section AS.
     destruct (ao_ident M MO Hc (f w) (tvl ta) (tvl tb)) as [Hiff Hor].
     assert (E : tvl ta = tvl tb).
     { apply Hiff. destruct Hor as [Ho|Ho]; [exact Ho|]. rewrite Ho in H1'. unfold t, S in *. congruence. }
-    assert (Hrep : forall o n, tvl o = tvl n -> map tvl (map (replace_term o n) args) = map tvl args).
-    { intros o n Hon. rewrite map_map. apply map_ext. intro z. unfold replace_term.
-      destruct (term_eqb z o) eqn:Ez; [|reflexivity]. apply term_eqb_eq in Ez. subst. auto. }
-    split; simpl; rewrite a_pred.
-    - change (t_des t (apred S M (f w) p (map tvl (map (replace_term ta tb) args))) = true).
-      rewrite (Hrep ta tb E). exact H2'.
-    - change (t_des t (apred S M (f w) p (map tvl (map (replace_term tb ta) args))) = true).
-      rewrite (Hrep tb ta (eq_sym E)). exact H2'.
+    simpl; rewrite a_pred.
+    change (t_des t (apred S M (f w) p (map tvl args')) = true).
+    rewrite (ident_args_map tvl ta tb E _ _ Hia). exact H2'.
   Qed.
 
   (* MAIN THEOREM: accepted + all leaves closed => no arbitrary structure satisfies the root *)
@@ -479,11 +483,10 @@ Section AS.
         destruct (nth_error b j) as [[s2 d2 w2|]|] eqn:Ej; try discriminate.
         destruct s2 as [|p args| | | |]; try discriminate. destruct d2; try discriminate.
         rewrite !andb_true_iff in Hck. destruct Hck as [[Hw Hg] Hall]. apply Nat.eqb_eq in Hw. subst w2.
-        destruct (ident_a f ce b i j ta tb p args w1 Hs Hcl Ei Ej) as [I1 I2].
-        apply orb_true_iff in Hg. destruct Hg as [Hg|Hg]; apply groups_eqb_eq in Hg; subst gs;
-          destruct (all2_single _ ts _ Hall) as [t' [-> Hck']].
-        * apply (Fin t' _ tk f ce (or_introl eq_refl) (or_introl eq_refl) Hck' Hs). intros n [<-|[]]. exact I1.
-        * apply (Fin t' _ tk f ce (or_introl eq_refl) (or_introl eq_refl) Hck' Hs). intros n [<-|[]]. exact I2.
+        destruct Hg as [Hia Hg]. remember (ident_new gs) as args' eqn:Ea. apply groups_eqb_eq in Hg. subst gs.
+        pose proof (ident_a f ce b i j ta tb p args args' w1 Hs Hcl Ei Ej Hia) as I1.
+        destruct (all2_single _ ts _ Hall) as [t' [-> Hck']].
+        apply (Fin t' _ tk f ce (or_introl eq_refl) (or_introl eq_refl) Hck' Hs). intros n [<-|[]]. exact I1.
   Qed.
   End WithModel.
 End AS.
